@@ -128,6 +128,8 @@ def _excluded_classes():
 
 
 def run(ck: Check) -> int:
+    from props.C18_P import run_P
+    run_P(ck)          # formatter half by structural induction (opaque children, symbolic lengths)
     from pytezos.michelson.format import micheline_to_michelson, format_node, is_framed
     from pytezos.michelson.parse import michelson_to_micheline, MichelsonParser
     for f in (micheline_to_michelson, format_node, is_framed, michelson_to_micheline, MichelsonParser.parse,
@@ -209,6 +211,8 @@ def run(ck: Check) -> int:
     if unmin:
         ck.note(f'{unmin} further failing cases were attributed without minimisation')
     ck.exhaustive = True
-    return ck.finish('exploration',
-                     'R (bounded): the round-trip contract evaluated on the real formatter and parser over the enumerated '
-                     'scope; nothing is proved for unbounded expressions')
+    return ck.finish('other',
+                     'S (props/C18_P.py): the FORMATTER half on its real AST by structural induction over opaque children with symbolic text lengths: '
+                     'every layout branch gives the same tokens as the Michelson concrete syntax (member order, separators, parentheses exactly for framed '
+                     'nodes in argument position, script root), for inline and multi-line mode; R (bounded): the round-trip contract evaluated on the '
+                     'real formatter and the PLY parser over the enumerated scope — the parser half is decided here only')
